@@ -332,8 +332,13 @@ class C19(Check):
             epochs.append({"lanes": lanes, "faults": faults})
         import re
         stored = init.get("files", {}).get(VERSION_PATH)
+        def vt(v):
+            return tuple(int(x) for x in v[1:].split("."))
+
         proper = [v for v in sg.OLD_VERSIONS if v != stored and v != version
-                  and re.fullmatch(r"v\d+\.\d+\.\d+", v)]
+                  and re.fullmatch(r"v\d+\.\d+\.\d+", v)
+                  and re.fullmatch(r"v\d+\.\d+\.\d+", version)
+                  and vt(v) < vt(version)]  # really OLDER than today's
         if rng.random() < 0.12 and proper and stored != version:
             # the first epoch is run by an older release of evo (its version
             # string, without some of today's parameters); later epochs and
